@@ -42,8 +42,18 @@ pub struct Sys<'a> {
 }
 
 pub fn build_sys<'a>() -> Sys<'a> {
+    build_sys_cfg(false)
+}
+
+/// `single_key`: one address holds both roles of the gateway (owner = operator) and of the gas service
+/// (owner = collector) at deployment
+pub fn build_sys_cfg<'a>(single_key: bool) -> Sys<'a> {
     let env = new_env();
-    let pool: Vec<Address> = (0..POOL).map(|_| Address::generate(&env)).collect();
+    let mut pool: Vec<Address> = (0..POOL).map(|_| Address::generate(&env)).collect();
+    if single_key {
+        pool[GW_OPERATOR] = pool[GW_OWNER].clone();
+        pool[GAS_COLLECTOR] = pool[GAS_OWNER].clone();
+    }
     let set = simple_set(1);
     let domain = [0x42u8; 32];
     let mut sets = SVec::new(&env);
